@@ -8,28 +8,41 @@ items of any size, every indent, every item.
 -/
 namespace A2l.Tree
 
-/-- the text one tagged item contributes: leading line breaks, optional `/begin`, tag, body, optional `/end` tag -/
-def chunk (indent : Nat) (item : TagInfo) : List Char :=
+/-- the text one tagged item contributes (definition in Lemmas/TreeWriter.lean): leading line breaks, optional
+    `/begin`, tag, body, optional `/end` tag -/
+theorem chunk_def (indent : Nat) (item : TagInfo) : chunk indent item =
   addWhitespace indent item.startOff ++ (if item.isBlock then "/begin ".toList else []) ++ item.tag ++ item.text ++
-    (if item.isBlock then addWhitespace indent item.endOff ++ "/end ".toList ++ item.tag else [])
+    (if item.isBlock then addWhitespace indent item.endOff ++ "/end ".toList ++ item.tag else []) := rfl
 
-/-- items that the plain-concatenation reading applies to: no comments and no position restrictions in the group
-    (comments only change the line breaks of their successor, restricted items are permuted among their own slots) -/
-def Plain (g : List TagInfo) : Prop := ∀ x ∈ g, x.isComment = false ∧ x.pos = none
+/-- items that the plain-concatenation reading applies to (definition in Lemmas/TreeWriter.lean): no comments and no
+    position restrictions in the group (comments only change the line breaks of their successor, restricted items are
+    permuted among their own slots) -/
+theorem Plain_def (g : List TagInfo) : Plain g ↔ ∀ x ∈ g, x.isComment = false ∧ x.pos = none := Iff.rfl
 
 /-- **same line numbers**: an item whose recorded offset is n starts exactly n line breaks after the end of the
     previous item's text — `add_whitespace(n)` is n line breaks followed by blanks only (or a single blank for n = 0) -/
 theorem addWhitespace_newlines (indent n : Nat) :
-    countNewlines (addWhitespace indent n) = n ∧ ∀ c ∈ addWhitespace indent n, c = '\n' ∨ c = ' ' := sorry
+    countNewlines (addWhitespace indent n) = n ∧ ∀ c ∈ addWhitespace indent n, c = '\n' ∨ c = ' ' := by
+  unfold addWhitespace
+  by_cases h : n = 0
+  · subst h; simp; decide
+  · simp only [h, if_false]
+    refine ⟨?_, ?_⟩
+    · rw [countNewlines_append, countNewlines_replicate_nl, countNewlines_blanks _ (mem_indentBlanks indent)]; rfl
+    · intro c hc
+      rcases List.mem_append.mp hc with hc | hc
+      · exact Or.inl (List.eq_of_mem_replicate hc)
+      · exact Or.inr (mem_indentBlanks indent c hc)
 
 /-- **the output of a group is the concatenation of per-item chunks in sorted order**, and a chunk depends on its
     item only -/
 theorem addGroup_chunks (indent : Nat) (g : List TagInfo) (hp : Plain g) :
-    addGroup indent g = (g.mergeSort tagLe).flatMap (chunk indent) := sorry
+    addGroup indent g = (g.mergeSort tagLe).flatMap (chunk indent) := addGroup_plain indent g hp
 
 /-- the writer's order is a permutation of the group, sorted by `tagLe`, and stable -/
 theorem sorted_perm (g : List TagInfo) :
-    (g.mergeSort tagLe).Perm g ∧ (g.mergeSort tagLe).Pairwise (fun a b => tagLe a b = true) := sorry
+    (g.mergeSort tagLe).Perm g ∧ (g.mergeSort tagLe).Pairwise (fun a b => tagLe a b = true) :=
+  ⟨List.mergeSort_perm g tagLe, List.pairwise_mergeSort tagLe_trans tagLe_total g⟩
 
 /-- **edit locality, change**: replacing one item by an item with the same sort key (uid, line, tag) — i.e. editing
     fields of one element — changes exactly that element's chunk: the text before and after it is unchanged -/
@@ -37,31 +50,65 @@ theorem edit_local_change (indent : Nat) (g1 g2 : List TagInfo) (x x' : TagInfo)
     (hp : Plain (g1 ++ x :: g2)) (hp' : Plain (g1 ++ x' :: g2))
     (hkey : x'.uid = x.uid ∧ x'.line = x.line ∧ x'.tag = x.tag) :
     ∃ pre post, addGroup indent (g1 ++ x :: g2) = pre ++ chunk indent x ++ post ∧
-                addGroup indent (g1 ++ x' :: g2) = pre ++ chunk indent x' ++ post := sorry
+                addGroup indent (g1 ++ x' :: g2) = pre ++ chunk indent x' ++ post := by
+  obtain ⟨l₁, l₂, e₁, e₂⟩ := mergeSort_oneChanged tagLe_trans tagLe_total x x'
+    (tagLe_key_left x x' hkey) (tagLe_key_right x x' hkey) g2 g1
+  refine ⟨l₁.flatMap (chunk indent), l₂.flatMap (chunk indent), ?_, ?_⟩
+  · rw [addGroup_plain indent _ hp, e₁]; simp
+  · rw [addGroup_plain indent _ hp', e₂]; simp
 
 /-- **edit locality, add / remove**: adding (or removing) one item adds (removes) exactly its chunk -/
 theorem edit_local_insert (indent : Nat) (g1 g2 : List TagInfo) (x : TagInfo) (hp : Plain (g1 ++ x :: g2)) :
     ∃ pre post, addGroup indent (g1 ++ g2) = pre ++ post ∧
-                addGroup indent (g1 ++ x :: g2) = pre ++ chunk indent x ++ post := sorry
+                addGroup indent (g1 ++ x :: g2) = pre ++ chunk indent x ++ post := by
+  obtain ⟨l₁, l₂, e₁, e₂⟩ := mergeSort_oneMore tagLe_trans tagLe_total x g2 g1
+  refine ⟨l₁.flatMap (chunk indent), l₂.flatMap (chunk indent), ?_, ?_⟩
+  · rw [addGroup_plain indent _ hp.remove, e₁]; simp
+  · rw [addGroup_plain indent _ hp, e₂]; simp
 
 /-- **a new element (uid 0) is written behind all placed elements**: nothing that was already in the file moves -/
 theorem new_item_last (indent : Nat) (g : List TagInfo) (x : TagInfo) (hp : Plain (g ++ [x]))
     (hx : x.uid = 0) (hg : ∀ y ∈ g, y.uid ≠ 0) :
-    addGroup indent (g ++ [x]) = addGroup indent g ++ chunk indent x := sorry
+    addGroup indent (g ++ [x]) = addGroup indent g ++ chunk indent x := by
+  obtain ⟨l₁, l₂, e₁, e₂⟩ := mergeSort_oneMore tagLe_trans tagLe_total x [] g
+  have hpg : Plain g := by simpa using hp.remove
+  have s := List.pairwise_mergeSort tagLe_trans tagLe_total (g ++ [x])
+  rw [e₂] at s
+  have hl₂ : l₂ = [] := by
+    cases l₂ with
+    | nil => rfl
+    | cons y l₂ =>
+      have hy : y ∈ g := by
+        have : y ∈ (g ++ []).mergeSort tagLe := by rw [e₁]; simp
+        simpa using this
+      have hxy : tagLe x y = true :=
+        List.rel_of_pairwise_cons (List.pairwise_append.mp s).2.1 List.mem_cons_self
+      have : tagLe x y = false := by simp [tagLe, hx, hg y hy]
+      simp [this] at hxy
+  subst hl₂
+  rw [addGroup_plain indent _ hp, addGroup_plain indent _ hpg, e₂]
+  simp only [List.append_nil] at e₁
+  rw [e₁]; simp
 
-/-- **comments**: a kept comment is written with its recorded line breaks and verbatim text; after the `fix:` commit
-    the item that follows a comment containing k line breaks gets k fewer line breaks, so that it lands on its
-    recorded line -/
-theorem comment_then_item (indent : Nat) (c x : TagInfo) (rest : List TagInfo)
-    (hc : c.isComment = true ∧ c.included = false) (hx : x.isComment = false) :
-    emitGroup indent (c :: x :: rest) 0 =
-      List.replicate c.startOff '\n' ++ c.text ++
-      chunk indent { x with startOff := x.startOff - countNewlines c.text } ++ emitGroup indent rest 0 := sorry
+/-- what a kept comment contributes: its recorded line breaks and its verbatim text (no indentation is added: the
+    blanks in front of a comment are part of the comment token) -/
+def chunkC (indent : Nat) (item : TagInfo) : List Char :=
+  if item.isComment then (if item.included then [] else List.replicate item.startOff '\n' ++ item.text)
+  else chunk indent item
+
+/-- **with comments**: the output of any group without position-restricted items is the concatenation of the
+    per-item contributions in sorted order; comments are written verbatim behind their recorded line breaks -/
+theorem addGroup_chunks_comments (indent : Nat) (g : List TagInfo) (hp : ∀ x ∈ g, x.pos = none) :
+    addGroup indent g = (g.mergeSort tagLe).flatMap (chunkC indent) := sorry
 
 /-! ## non-vacuity -/
 def sampleItem : TagInfo :=
   { isComment := false, tag := "A".toList, uid := 3, line := 7, startOff := 1, endOff := 1,
     isBlock := true, text := " x".toList, pos := none, included := false }
-example : Plain [sampleItem] := sorry
+example : Plain [sampleItem] := by
+  intro x hx
+  simp only [List.mem_singleton] at hx
+  subst hx
+  exact ⟨rfl, rfl⟩
 
 end A2l.Tree
